@@ -83,6 +83,10 @@ for sid in sorted(os.listdir(os.path.join(V, 'seeded'))):
     m = json.load(open(mp))
     if sid in T:
         m['summary'], m['needs'] = T[sid]
+    if sid == 'C06-3':
+        # the clause it breaks (<caller>_complete only after the callee's follow-up work) is C05's oracle; C05's workload has call()/wait() shapes for it
+        m['caught_by_property'] = 'C05'
+        m['caught_by'] = 'C05 quick'
     json.dump(m, open(mp, 'w'), indent=1)
     rows.append('| %s | %s | %s | %s | %s |' % (sid, m['property'], m.get('summary', ''), m.get('needs', ''), m.get('caught_by', m['property'] + ' quick')))
 print('| id | property broken | change | needs | caught by |\n|---|---|---|---|---|')
